@@ -136,6 +136,10 @@ func Main(m *testing.M, property string) {
 		verifDir = v
 	}
 	outPath = os.Getenv("VERIF_EVID_OUT")
+	if outPath != "" && os.Getenv("VERIF_EVID_PERPID") != "" {
+		// children of a native fuzz campaign (coordinator and workers) each write their own file
+		outPath += "." + strconv.Itoa(os.Getpid())
+	}
 	sh = shard{Property: property, Unit: os.Getenv("VERIF_UNIT"), Tier: Tier, Seed: Seed,
 		Labels: map[string]int64{}, KnownHits: map[string]int64{}, Excluded: map[string]int64{}}
 	loadKnown()
@@ -360,6 +364,45 @@ func Flush() {
 	tmp := outPath + ".tmp"
 	if os.WriteFile(tmp, b, 0o644) == nil {
 		os.Rename(tmp, outPath)
+	}
+}
+
+// Absorb adds the counters of another process's shard file (a fuzz worker's)
+// to this process's: evaluations, distinct non-trivial hashes, labels, known
+// hits, exclusions and a few samples. Violations are not absorbed: the caller
+// re-decides crashers itself.
+func Absorb(path string) {
+	b, err := os.ReadFile(path)
+	if err != nil {
+		return
+	}
+	var o shard
+	if json.Unmarshal(b, &o) != nil {
+		return
+	}
+	mu.Lock()
+	defer mu.Unlock()
+	sh.Evaluations += o.Evaluations
+	sh.ByConstruct += o.ByConstruct
+	sh.Unconfirmed += o.Unconfirmed
+	for _, h := range o.Hashes {
+		if v, err := strconv.ParseUint(h, 16, 64); err == nil {
+			hashes[v] = struct{}{}
+		}
+	}
+	for k, v := range o.Labels {
+		sh.Labels[k] += v
+	}
+	for k, v := range o.KnownHits {
+		sh.KnownHits[k] += v
+	}
+	for k, v := range o.Excluded {
+		sh.Excluded[k] += v
+	}
+	for _, smp := range o.Samples {
+		if len(sh.Samples) < maxSamp {
+			sh.Samples = append(sh.Samples, smp)
+		}
 	}
 }
 
